@@ -508,6 +508,11 @@ where
 	{
 		let w = SerializableWindow::deserialize(deserializer)?;
 
+		// an empty window (used by window-less methods) is serialized as an empty buffer with index `0`
+		if w.buf.is_empty() && w.index == 0 {
+			return Ok(Self::empty());
+		}
+
 		let buf = w.buf;
 		let index = w.index;
 
